@@ -237,7 +237,7 @@ func newSimClient(s *simkit.Sim, st *mstore) *simClient {
 		if len(st.ExtSets) > 0 {
 			ext = st.ExtSets[0]
 		}
-		ts := store.NewTSDBStore(log.NewNopLogger(), &blockDB{b: st.block}, component.Sidecar, ext)
+		ts := store.NewTSDBStore(log.NewNopLogger(), st.block, component.Sidecar, ext)
 		if st.MaxFrameBytes > 0 {
 			ts.VerifSetMaxBytesPerFrame(st.MaxFrameBytes)
 		}
